@@ -2074,21 +2074,218 @@ def _check_advan_case(case):
     return fails
 
 
+# $DES models --------------------------------------------------------------------------------------
+
+FID_DES = 'src/pharmpy/model/statements.py:to_compartmental_system'
+
+# topology: (compartment names in $MODEL order, transfers (from, to), compartment that is eliminated from)
+_DES_TOPOLOGIES = {
+    '1cmt': (('CENTRAL',), (), 1),
+    'oral': (('DEPOT', 'CENTRAL'), ((1, 2),), 2),
+    '2cmt': (('CENTRAL', 'PERI'), ((1, 2), (2, 1)), 1),
+    'oral2cmt': (('DEPOT', 'CENTRAL', 'PERI'), ((1, 2), (2, 3), (3, 2)), 2),
+}
+# how the rate of one first-order transfer / of the elimination is written.  Every form is a list of
+# additive terms of the source equation (each a product containing the source amount) and the
+# parameters it needs; {t} is a tag that keeps the parameters of different edges apart, {a} the source
+# amount A(i).  'sumfact': the source equation has the factored form, the destination the sum.
+_DES_FORMS = {
+    'single': (['K{t}*{a}'], ['K{t}']),
+    'ratio': (['Q{t}/V{t}*{a}'], ['Q{t}', 'V{t}']),
+    'sum2': (['KF{t}*{a}', 'KS{t}*{a}'], ['KF{t}', 'KS{t}']),
+    'factored': (['(KF{t}+KS{t})*{a}'], ['KF{t}', 'KS{t}']),
+    'sumfact': (['KF{t}*{a}', 'KS{t}*{a}'], ['KF{t}', 'KS{t}']),
+    'cov': (['Q{t}/V{t}*(1+W{t}*WT/70)*{a}'], ['Q{t}', 'V{t}', 'W{t}']),
+    'sum3': (['KF{t}*{a}', 'KS{t}*{a}', 'Q{t}/V{t}*{a}'], ['KF{t}', 'KS{t}', 'Q{t}', 'V{t}']),
+    'mm': (['VM{t}*{a}/(KM{t}+{a})'], ['VM{t}', 'KM{t}']),
+    'mixed': (['CL{t}/V{t}*{a}', 'VM{t}*{a}/(KM{t}+{a})'], ['CL{t}', 'V{t}', 'VM{t}', 'KM{t}']),
+}
+
+
+def gen_des_cases(tier):
+    thorough = tier == 'thorough'
+    tforms = ['single', 'sum2', 'factored', 'cov'] + (['ratio', 'sumfact', 'sum3'] if thorough else [])
+    eforms = ['single', 'ratio', 'sum2', 'mm', 'mixed'] + (['cov', 'sum3'] if thorough else [])
+    cases = []
+    for topo, (names, transfers, _) in _DES_TOPOLOGIES.items():
+        tf, ef = tforms, eforms
+        if len(transfers) == 3 and not thorough:
+            tf, ef = ['single', 'sum2', 'cov'], ['single', 'sum2', 'mm']
+        for forms in itertools.product(tf, repeat=len(transfers)):
+            for e in ef:
+                cases.append({'des': topo, 'transfers': list(forms), 'elim': e, 'zo': False})
+        # a zero-order input into the first compartment next to the transfers
+        for f in (tf if transfers else ['single']):
+            for e in ef[:3]:
+                cases.append({'des': topo, 'transfers': [f] * len(transfers), 'elim': e, 'zo': True})
+    return cases
+
+
+def _des_code(case):
+    """-> (control stream, $DES lines, parameter names in THETA order, compartment names)"""
+    names, transfers, elim_from = _DES_TOPOLOGIES[case['des']]
+    n = len(names)
+    rhs = {i: [] for i in range(1, n + 1)}
+    params = []
+
+    def use(form, tag, src):
+        terms, pars = _DES_FORMS[form]
+        a = f'A({src})'
+        for p in pars:
+            p = p.format(t=tag)
+            if p not in params:
+                params.append(p)
+        return [t.format(t=tag, a=a) for t in terms]
+
+    for (f, t), form in zip(transfers, case['transfers']):
+        tag = f'{f}{t}'
+        dst_terms = use(form, tag, f)
+        src_terms = use('factored', tag, f) if form == 'sumfact' else dst_terms
+        rhs[f] += ['-' + x for x in src_terms]
+        rhs[t] += ['+' + x for x in dst_terms]
+    rhs[elim_from] += ['-' + x for x in use(case['elim'], 'E', elim_from)]
+    if case['zo']:
+        params.append('RZ')
+        rhs[1].insert(0, '+RZ')
+    des = []
+    for i in range(1, n + 1):
+        text = ' '.join(rhs[i])
+        des.append(f'DADT({i}) = ' + (text[1:] if text.startswith('+') else text))
+    pk = [f'{p} = THETA({k})' for k, p in enumerate(params, 1)]
+    obs = names.index('CENTRAL') + 1
+    model = ' '.join(
+        'COMPARTMENT=(' + nm + (' DEFDOSE' if i == 0 else '') + (' DEFOBS' if i + 1 == obs else '') + ')'
+        for i, nm in enumerate(names))
+    code = ('$PROBLEM bounded\n$INPUT ID TIME AMT DV WT\n$DATA data.csv IGNORE=@\n'
+            '$SUBROUTINE ADVAN13 TOL=9\n$MODEL ' + model + '\n$PK\n' + '\n'.join(pk) + '\n$DES\n'
+            + '\n'.join(des) + '\n$ERROR\nY = F + F*EPS(1)\n$THETA '
+            + ' '.join(f'(0,{1 + 0.5 * i:g})' for i in range(len(params)))
+            + '\n$OMEGA 0.1\n$SIGMA 0.1\n$ESTIMATION METHOD=1\n')
+    return code, des, params, names
+
+
+def _des_tag(case):
+    return (f'$DES {case["des"]} transfers={",".join(case["transfers"]) or "-"} elimination={case["elim"]}'
+            + (' zero-order input' if case['zo'] else ''))
+
+
+DES_READ_CLAUSE = '$MODEL/$DES: control stream is read without error'
+DES_ODE_CLAUSE = ('$DES: the rate of change of every compartment amount given by the compartmental system '
+                  '(inflows - outflows + zero-order input) equals DADT(n) of the $DES code for equal '
+                  'parameters, data and amounts')
+
+
+def _check_des_case(case):
+    """-> list of (fid, clause, detail)"""
+    import sympy
+    from pharmpy.model import output
+    from pharmpy.modeling import read_model_from_string
+
+    _speedup()
+    if _IR_REL is None:
+        _init_ir_tables()
+    code, des, params, names = _des_code(case)
+    tag = _des_tag(case)
+    n = len(names)
+    try:
+        model = read_model_from_string(code)
+        sset = model.statements
+        cs = sset.ode_system
+        if cs is None:
+            raise ValueError('no ODE system in the model')
+        comps = [cs.find_compartment(nm) for nm in cs.compartment_names]
+        rvp = set(model.random_variables.parameter_names)
+        thetas = [p.name for p in model.parameters if p.name not in rvp]
+    except Exception as exc:
+        return [(FID_DES, DES_READ_CLAUSE, f'{tag}: {type(exc).__name__}: {str(exc)[:200]} for ' + ' | '.join(des))]
+    if len(comps) != n or len(thetas) != len(params):
+        return [(FID_DES, DES_ODE_CLAUSE, f'{tag}: $MODEL defines compartments {list(names)} and $PK {len(params)} '
+                 f'parameters, the model has compartments {cs.compartment_names} and thetas {thetas}')]
+    # reference: the $DES lines under NM-TRAN rules
+    ref_lines = [re.sub(r'\bDADT\((\d+)\)', r'DADT_\1', re.sub(r'\bA\((\d+)\)', r'A_\1', ln)) for ln in des]
+    try:
+        prog = ref_parse_program(ref_lines)
+    except RefSyntax as exc:  # a bug in this file, never hide it
+        return [(FID_DES, 'checker: reference parser accepts the enumerated $DES code', f'{tag}: {exc}')]
+    best = None
+    for perm in itertools.permutations(range(n)):
+        # perm[i] = index of the model compartment that plays compartment i+1 of $MODEL
+        probs = []
+        for k in range(3):
+            pvals = [0.35 + 0.27 * j + 0.11 * k + 0.05 * ((j * 7 + k * 3) % 5) for j in range(len(params))]
+            avals = [1.3 + 0.8 * i + 0.45 * k for i in range(n)]
+            wt = 52.0 + 13.0 * k
+            ref_env = dict(zip(params, pvals))
+            ref_env['WT'] = wt
+            for i in range(n):
+                ref_env[f'A_{i + 1}'] = avals[i]
+            try:
+                ref_run(prog, ref_env)
+            except (RefUndefined, RefDomain) as exc:
+                return [(FID_DES, 'checker: reference interpreter evaluates the enumerated $DES code',
+                         f'{tag}: {exc!r}')]
+            env = dict(zip(thetas, pvals))
+            env['WT'] = wt
+            env['t'] = 1.5 + k
+            for i in range(n):
+                a = sympy.sympify(comps[perm[i]].amount)
+                env[str(a)] = avals[i]
+                env[a.name if a.is_Symbol else str(a.func)] = avals[i]
+            ir_run(sset.before_odes, env)
+
+            def val(e):
+                return ir_eval(sympy.sympify(e), env)
+
+            for i in range(n):
+                c = comps[perm[i]]
+                try:
+                    d = val(c.input)
+                    for j in range(n):
+                        if j != i:
+                            d += val(cs.get_flow(comps[perm[j]], c)) * avals[j]
+                            d -= val(cs.get_flow(c, comps[perm[j]])) * avals[i]
+                    d -= val(cs.get_flow(c, output)) * avals[i]
+                except IRUndefined as exc:
+                    d = f'undefined({exc})'
+                want = ref_env[f'DADT_{i + 1}']
+                if isinstance(d, str) or not close(d, want, 1e-9):
+                    probs.append(f'at ' + ' '.join(f'{p}={v:.4g}' for p, v in zip(params, pvals))
+                                 + f' WT={wt:g} ' + ' '.join(f'A({q + 1})={v:g}' for q, v in enumerate(avals))
+                                 + f': NM-TRAN gives DADT({i + 1})={want:.12g}, the compartmental system gives {d}')
+            if probs:
+                break
+        if best is None or len(probs) < len(best):
+            best = probs
+        if not probs:
+            break
+    if best:
+        return [(FID_DES, DES_ODE_CLAUSE, f'{tag}: {best[0]} for ' + ' | '.join(des))]
+    return []
+
+
+def _check_c01_case(case):
+    return _check_des_case(case) if 'des' in case else _check_advan_case(case)
+
+
 def bounded_advan_trans(tier='quick'):
     cases = gen_advan_cases(tier)
+    nlib = len(cases)
+    des_cases = gen_des_cases(tier)
     fails = {}
     bad = _selfcheck_predpp_table()
     if bad:
         fails[('checker',)] = {'fid': FID_ADVAN, 'clause': 'checker: PREDPP table is self-consistent',
                                'detail': str(bad[:2]), 'case': cases[0],
                                'replay_fn': 'bounded_advan_trans_replay'}
-    results = _run_pool(_check_advan_case, cases)
+    results = _run_pool(_check_c01_case, cases + des_cases)
 
     def size(c):
+        if 'des' in c:
+            return (True, True, True, 99, len(c['transfers']), c['zo'], str(c))
         return (c['data'] != 'nodata', c['attr'] != 'none', c['scale'] != 'none', c['advan'], c['trans'])
 
     also = _Also()
-    for case, res in zip(cases, results):
+    for case, res in zip(cases + des_cases, results):
         for fid, clause, detail in res:
             key = (fid, clause)
             also.add(key, dict(case, clause=clause))
@@ -2097,25 +2294,35 @@ def bounded_advan_trans(tier='quick'):
                               'case': dict(case, clause=clause), 'replay_fn': 'bounded_advan_trans_replay'}
     for key, f in fails.items():
         f['also'] = also.get(key, f['case'])
+    thorough = tier == 'thorough'
     return {
-        'cases': len(cases),
-        'nontrivial': len(cases),
+        'cases': len(cases) + len(des_cases),
+        'nontrivial': len(cases) + len(des_cases),
         'bound': (
             'all 21 library combinations ADVAN{1,2,3,4,10,11,12} x TRANS allowed by NM-TRAN, $PK defining '
             'exactly the basic parameters of the TRANS as THETAs, x 6 scale-parameter patterns (none, S<obs>, '
             'SC, S<other>, both, S0) x 6 ALAGn/Fn patterns without data set; x 5 data sets (RATE=-2 with Dn, '
             'RATE=-1 with Rn, RATE>0, RATE=0, doses with CMT=2)'
-            + (' x all patterns' if tier == 'thorough' else ' x 2 ALAGn/Fn patterns')
-            + '; compartments matched to PREDPP numbers by searching all bijections'),
+            + (' x all patterns' if thorough else ' x 2 ALAGn/Fn patterns')
+            + f'; compartments matched to PREDPP numbers by searching all bijections [{nlib}]; ADVAN13 $MODEL/$DES '
+            'models on 4 topologies (1 compartment, depot+central, central+peripheral, depot+central+peripheral) '
+            f'where the rate of every first-order transfer is written in each of {7 if thorough else 4} forms (one '
+            'product, sum of 2 products, factored sum, covariate factor Q/V*(1+W*WT/70)'
+            + (', ratio, sum in the destination with factored source, sum of 3 products' if thorough else '')
+            + f') and the elimination in each of {7 if thorough else 5} forms (first order as product / ratio / sum'
+            + (' / covariate / sum of 3' if thorough else '')
+            + ', Michaelis-Menten, mixed)' + ('' if thorough else ' (3 x 3 forms on the 3-compartment topology)')
+            + ', plus the same with a zero-order input into compartment 1 (all transfers in one form x 3 '
+            f'elimination forms); DADT(n) compared numerically at 3 points over all compartment numberings [{len(des_cases)}]'),
         'samples': [f'ADVAN{c["advan"]} TRANS{c["trans"]} {c["scale"]} {c["attr"]} {c["data"]}'
-                    for c in (cases[0], cases[len(cases) // 2], cases[-1])],
+                    for c in (cases[0], cases[len(cases) // 2], cases[-1])] + [_des_tag(des_cases[len(des_cases) // 2])],
         'fails': sorted(fails.values(), key=lambda f: (f['fid'], f['clause'])),
     }
 
 
 def bounded_advan_trans_replay(rp):
     case = {k: v for k, v in rp['case'].items() if k != 'clause'}
-    res = [r for r in _check_advan_case(case) if r[1] == rp['case'].get('clause', r[1])]
+    res = [r for r in _check_c01_case(case) if r[1] == rp['case'].get('clause', r[1])]
     if res:
         return (False, res[0][2])
     return (True, 'ok')
